@@ -305,7 +305,7 @@ def _has_counted(hyp_row, eos, inc):
     return len(counted(hyp_row, eos, inc)) > 0
 
 
-def _exhaustive(L, A, costs_list, size, loss=False, r0=True, alt_bf=False):
+def _exhaustive(L, A, costs_list, size, loss=False, alt_bf=False):
     """alt_bf: alternate batch_first from batch to batch instead of running every batch in both layouts"""
     k = b = 0
     for R in range(0, L + 1):
@@ -317,8 +317,6 @@ def _exhaustive(L, A, costs_list, size, loss=False, r0=True, alt_bf=False):
                         for bf in ((b % 2 == 0,) if alt_bf else (False, True)):
                             base = {"ref": refs, "hyp": hyps, "eos": eos, "include_eos": inc, "batch_first": bf, "costs": list(costs)}
                             if loss:
-                                if R == 0:
-                                    continue  # R = 0 is exercised (and fails, KF-C03-1) under C03.oc.set_semantics
                                 keep = [i for i in range(len(hyps)) if _has_counted(hyps[i], eos, inc)]
                                 if not keep:
                                     continue
@@ -330,8 +328,6 @@ def _exhaustive(L, A, costs_list, size, loss=False, r0=True, alt_bf=False):
                                 for excl in (False, True):
                                     if excl and H == 0:
                                         continue  # the excluded combination
-                                    if R == 0 and not r0:
-                                        continue  # R = 0 is exercised (and fails, KF-C03-1) under C03.oc.set_semantics only
                                     k += 1
                                     yield dict(base, exclude_last=excl, padding=(-100, -1, A + 4)[k % 3])
 
@@ -360,6 +356,7 @@ def _random_case(rng, loss=False):
 
 
 def cases_oc(ctx):
+    yield from (dict(c) for c in REGRESSIONS["C03.oc.set_semantics"].values())
     if ctx.quick:
         yield from _exhaustive(4, 3, COSTS_QUICK, 81)
     else:
@@ -379,15 +376,17 @@ INEXACT = [(1.1, 0.9, 0.9), (1.1, 0.7, 0.7), (0.9, 0.9, 1.1), (0.7, 1.1, 0.7)]
 
 
 def cases_inexact(ctx):
-    yield from _exhaustive(4 if ctx.quick else 5, 2, INEXACT, 64, r0=False)
+    yield from (dict(c) for c in REGRESSIONS["C03.oc.inexact_costs"].values())
+    yield from _exhaustive(4 if ctx.quick else 5, 2, INEXACT, 64)
 
 
 def cases_mask(ctx):
+    yield from (dict(c) for c in REGRESSIONS["C03.mask.row_minima"].values())
     if ctx.quick:
-        yield from _exhaustive(4, 3, COSTS_QUICK, 81, r0=False)
+        yield from _exhaustive(4, 3, COSTS_QUICK, 81)
     else:
-        yield from _exhaustive(4, 3, COSTS_QUICK + COSTS_MORE, 81, r0=False)
-        yield from _exhaustive(5, 3, COSTS_QUICK[1:2], 243, r0=False, alt_bf=True)
+        yield from _exhaustive(4, 3, COSTS_QUICK + COSTS_MORE, 81)
+        yield from _exhaustive(5, 3, COSTS_QUICK[1:2], 243, alt_bf=True)
         rng = random.Random(ctx.seed * 7919 + 2)
         for _ in range(NRAND):
             c = _random_case(rng)
@@ -396,6 +395,7 @@ def cases_mask(ctx):
 
 
 def cases_loss(ctx):
+    yield from (dict(c) for c in REGRESSIONS["C03.loss.formula"].values())
     if ctx.quick:
         yield from _exhaustive(3, 3, COSTS_QUICK[:2], 27, loss=True)
     else:
@@ -409,29 +409,27 @@ def cases_loss(ctx):
 
 CHECKERS = {"C03.mask.row_minima": check_mask, "C03.oc.set_semantics": check_oc, "C03.loss.formula": check_loss, "C03.oc.inexact_costs": check_oc}
 
-FINDINGS = [
-    {"id": "KF-C03-1", "property": "C03", "clause": "C03.oc.set_semantics",
-     "what": "optimal_completion raises IndexError when the reference tensor has a zero-size sequence dimension (every reference empty); "
-             "the property asks for all-padding rows",
-     "class": "ref.size(sequence dim) == 0 (R = 0), any hypothesis, any flags; _string_matching(return_mask=True) writes row_mask[0] of a (0, N) tensor",
-     "witness": {"ref": [[]], "hyp": [[0]], "eos": None, "include_eos": False, "batch_first": False, "costs": [1.0, 1.0, 1.0], "exclude_last": False, "padding": -100}},
-    {"id": "KF-C03-2", "property": "C03", "clause": "C03.oc.inexact_costs",
-     "what": "optimal_completion drops (or adds) a target when the costs are not exactly representable: a run of i-k deletions is priced i*del - k*del in float32 "
-             "(del_mat = row.unsqueeze(1) - row), which is not (i-k)*del, so exact ties between a deletion and an equally priced substitution/insertion are broken "
-             "and the == against the row minimum misses them",
-     "class": "unequal cost triple in which some cost is not a multiple of 1/4 (e.g. del = sub = 0.9), reference and hypothesis such that the row minimum is tied "
-              "between the last reference position and an earlier one",
-     "witness": {"ref": [[0, 0, 0, 1]], "hyp": [[0, 0, 1]], "eos": None, "include_eos": False, "batch_first": False, "costs": [1.1, 0.9, 0.9], "exclude_last": False, "padding": -100}},
-]
+FINDINGS = []      # KF-C03-1 and KF-C03-2 were repaired in /repo (a01e688, a715bab); their witnesses are kept as named regression cases
+KNOWN_MATCH = {}
 
-
-def _dyadic(costs):
-    return all(float(c) * 4 == int(float(c) * 4) for c in costs)
-
-
-KNOWN_MATCH = {
-    "KF-C03-2": lambda case, msg: not _dyadic(case["costs"]) and len(set(case["costs"])) > 1 and "distance-preserving next tokens are" in msg,
-    "KF-C03-1": lambda case, msg: len(case["ref"]) > 0 and all(len(r) == 0 for r in case["ref"]) and "IndexError" in msg and "dimension 0 with size 0" in msg,
+_W1 = {"ref": [[]], "hyp": [[0]], "eos": None, "include_eos": False, "batch_first": False, "costs": [1.0, 1.0, 1.0], "exclude_last": False, "padding": -100}
+_W2 = {"ref": [[0, 0, 0, 1]], "hyp": [[0, 0, 1]], "eos": None, "include_eos": False, "batch_first": False, "costs": [1.1, 0.9, 0.9], "exclude_last": False, "padding": -100}
+REGRESSIONS = {  # clause -> {name: case}; run first in every tier
+    "C03.oc.set_semantics": {
+        # was: IndexError at row_mask[0] of a (0, N) mask; expected all-padding rows of width 0
+        "KF-C03-1 reference tensor with zero steps": _W1,
+        "KF-C03-1 zero steps, eos set, batch_first, exclude_last": dict(_W1, ref=[[], []], hyp=[[0, 1], [1, 1]], eos=0, batch_first=True, exclude_last=True),
+    },
+    "C03.mask.row_minima": {"KF-C03-1 reference tensor with zero steps": _W1},
+    "C03.loss.formula": {
+        "KF-C03-1 reference tensor with zero steps -> zero loss": {"ref": [[], []], "hyp": [[0, 1], [1, 1]], "eos": None, "include_eos": False, "batch_first": False,
+                                                                   "costs": [1.0, 1.0, 1.0], "V": 3, "reduction": "mean", "ignore_index": -2, "lseed": 1, "dtype": "float64"},
+    },
+    "C03.oc.inexact_costs": {
+        # was: no target listed at prefix 3 although token 1 keeps the distance 0.9 (i*del - k*del != (i-k)*del in float32)
+        "KF-C03-2 del == sub == 0.9: tie between one deletion and one substitution": _W2,
+        "KF-C03-2 ins == del == 0.9": dict(_W2, costs=[0.9, 0.9, 1.1]),
+    },
 }
 
 
@@ -449,11 +447,11 @@ def run_bounded(ctx):
     q = ctx.quick
     ex = ("EXHAUSTIVE: every (ref, hyp) in {0,1,2}^R x {0,1,2}^H, R,H<=4 (R=4 forces a repeated reference token), in batches of <=81 pairs; "
           "eos in {none, 0 not counted, 0 counted} (0 is in the alphabet: ragged lengths, garbage after eos); "
-          "batch_first x exclude_last (not with H=0); costs (ins,del,sub) in %s" % (COSTS_QUICK if q else COSTS_QUICK + COSTS_MORE))
+          "batch_first x exclude_last (not with H=0); zero-size R and H dimensions included; costs (ins,del,sub) in %s" % (COSTS_QUICK if q else COSTS_QUICK + COSTS_MORE))
     more = "" if q else ("; + exhaustive R,H<=5 alphabet 3 (costs (1,2,3), layout alternating per batch) %s+ " + "%d seeded random batches " % NRAND +
                          "(alphabet<=5, R,H,N<=6, eos inside/outside the alphabet, costs from {.25,.5,1,1.5,2,3,4}^3, functional or module entry point)")
     if _wanted(ctx, "C03.mask.row_minima"):
-        ctx.bounded("C03.mask.row_minima", check_mask, cases_mask(ctx), bound=ex + (more % "" if more else "") + "; R>=1 as tensor size (empty references through eos)",
+        ctx.bounded("C03.mask.row_minima", check_mask, cases_mask(ctx), bound=ex + (more % "" if more else ""),
                     text="_string_matching(return_mask=True)[j,r,n] <=> r<ref_len and prefix j exists and D(r,j) = min_{r'<=ref_len} D(r',j), D from an exact integer Levenshtein table",
                     nontrivial=_repeats, budget_s=None if q else 400, chunk=8, functions=["_string._string_matching"])
     if _wanted(ctx, "C03.oc.set_semantics"):
@@ -463,7 +461,7 @@ def run_bounded(ctx):
                     nontrivial=_repeats, budget_s=None if q else 400, chunk=8, functions=["_string.optimal_completion", "_string._string_matching"])
     if _wanted(ctx, "C03.loss.formula"):
         ctx.bounded("C03.loss.formula", check_loss, cases_loss(ctx),
-                    bound=("EXHAUSTIVE: every (ref, hyp) in {0,1,2}^R x {0,1,2}^H, 1<=R,H<=%d with a counted hypothesis token, batches of <=%d; 3 eos modes x batch_first x reduction {none,sum,mean}; "
+                    bound=("EXHAUSTIVE: every (ref, hyp) in {0,1,2}^R x {0,1,2}^H, R,H<=%d, every hypothesis with a counted token, batches of <=%d; 3 eos modes x batch_first x reduction {none,sum,mean}; "
                            "costs %s; V in {3,4}; ignore_index in {-2,-100}; one seeded float64 logit tensor (3*randn) per case" % ((3, 27, COSTS_QUICK[:2]) if q else (4, 81, COSTS_QUICK[:2])))
                     + ("" if q else "; + %d seeded random batches (as above, float32 and float64 logits, functional or module entry point)" % NRAND),
                     text="hard OCD loss = mean over the brute-force target set of -log_softmax(logits)[t] per prefix (0 where empty); sum; mean = per-sequence average over prefixes with targets, then batch mean",
